@@ -223,12 +223,20 @@ pub struct IndKey {
 impl IndKey {
     pub fn gen(rng: &mut Rng, kind: Kind) -> IndKey {
         match kind {
-            Kind::Secp => loop {
-                let sk = rng.bytes(32);
-                if enr::k256::ecdsa::SigningKey::from_slice(&sk).is_ok() {
-                    return IndKey { kind, sk };
+            Kind::Secp => {
+                // one key in three is an edge case: small scalars, n-1, and keys whose x coordinate
+                // starts with 0x00 / 0x04 / 0xff (bytes that look like SEC1 tags or drop leading zeros)
+                if rng.chance(1, 3) {
+                    let pool = edge_secp_keys();
+                    return IndKey { kind, sk: rng.pick(pool).clone() };
                 }
-            },
+                loop {
+                    let sk = rng.bytes(32);
+                    if enr::k256::ecdsa::SigningKey::from_slice(&sk).is_ok() {
+                        return IndKey { kind, sk };
+                    }
+                }
+            }
             Kind::Ed => IndKey {
                 kind,
                 sk: rng.bytes(32),
@@ -236,7 +244,8 @@ impl IndKey {
             Kind::Toy => IndKey {
                 kind,
                 sk: vec![
-                    rng.range(0, 80) as u8,
+                    // at least 8 bytes, so that tampered content cannot verify by accident
+                    rng.range(8, 80) as u8,
                     rng.range(0, 3) as u8,
                     rng.next() as u8,
                     rng.next() as u8,
@@ -310,6 +319,43 @@ impl IndKey {
             self.sk.clone()
         }
     }
+}
+
+/// secp256k1 secrets whose public keys are edge cases
+pub fn edge_secp_keys() -> &'static Vec<Vec<u8>> {
+    static POOL: std::sync::OnceLock<Vec<Vec<u8>>> = std::sync::OnceLock::new();
+    POOL.get_or_init(|| {
+        let mut out: Vec<Vec<u8>> = Vec::new();
+        let scalar = |n: u64| {
+            let mut v = vec![0u8; 32];
+            v[24..].copy_from_slice(&n.to_be_bytes());
+            v
+        };
+        out.push(scalar(1));
+        out.push(scalar(2));
+        out.push(scalar(3));
+        let mut nm1 = SECP_N.to_vec();
+        nm1[31] -= 1;
+        out.push(nm1);
+        // walk scalars until the x coordinate starts with each wanted byte
+        for want in [0x00u8, 0x04, 0x02, 0x03, 0xff] {
+            let mut n = 4u64;
+            loop {
+                let sk = scalar(n);
+                let k = enr::k256::ecdsa::SigningKey::from_slice(&sk).unwrap();
+                let p = k.verifying_key().to_encoded_point(true);
+                if p.as_bytes()[1] == want {
+                    out.push(sk);
+                    break;
+                }
+                n += 1;
+                if n > 20000 {
+                    break;
+                }
+            }
+        }
+        out
+    })
 }
 
 /// which independent key kinds a scheme (key type) can sign with
